@@ -203,10 +203,9 @@ impl<P: ConnectionProvider> DnsHandle for NameServerPool<P> {
             });
 
             let response = lookup.await;
-            let mut response = response?;
 
             if acs.allows_all() {
-                return Ok(response);
+                return response;
             }
 
             let answer_filter = |record: &Record| {
@@ -227,6 +226,43 @@ impl<P: ConnectionProvider> DnsHandle for NameServerPool<P> {
                 } else {
                     true
                 }
+            };
+
+            // Negative responses and referrals arrive in error form. The records they carry (the
+            // authority section, the glue of a referral) are subject to the same filter as the
+            // sections of a positive response.
+            let mut response = match response {
+                Ok(response) => response,
+                Err(NetError::Dns(DnsError::NoRecordsFound(mut no_records))) => {
+                    if let Some(records) = no_records.authorities.take() {
+                        let records = records
+                            .iter()
+                            .filter(|record| answer_filter(record))
+                            .cloned()
+                            .collect::<Vec<_>>();
+                        if !records.is_empty() {
+                            no_records.authorities = Some(Arc::from(records));
+                        }
+                    }
+                    if let Some(name_servers) = no_records.ns.take() {
+                        let name_servers = name_servers
+                            .iter()
+                            .cloned()
+                            .map(|mut ns| {
+                                ns.glue = ns
+                                    .glue
+                                    .iter()
+                                    .filter(|glue| answer_filter(glue))
+                                    .cloned()
+                                    .collect();
+                                ns
+                            })
+                            .collect::<Vec<_>>();
+                        no_records.ns = Some(Arc::from(name_servers));
+                    }
+                    return Err(NetError::Dns(DnsError::NoRecordsFound(no_records)));
+                }
+                Err(error) => return Err(error),
             };
 
             let answers_len = response.answers.len();
